@@ -704,7 +704,8 @@ func checkEventsLossless(p *Prog, r *Report, ru *Rule) {
 			return false
 		}
 		n := namedOf(ct.Elem())
-		return nil != n && "Event" == n.Obj().Name() && nil != n.Obj().Pkg() && strings.HasSuffix(n.Obj().Pkg().Path(), iobPkg)
+		/* iobroker.Event, wherever in (or below) that package it is declared. */
+		return nil != n && "Event" == n.Obj().Name() && nil != n.Obj().Pkg() && strings.Contains(n.Obj().Pkg().Path()+"/", "/"+iobPkg+"/")
 	}
 	n := 0
 	for _, fn := range p.Funcs() {
